@@ -57,6 +57,13 @@ func runC19(c *vf.Ctx) {
 		}
 	}
 
+	// shared caller objects, systematically
+	rs := c.R.Fork()
+	for _, cs := range c19SharedCases(rs, probe) {
+		runs = append(runs, c19RunImpl(cs))
+		c.Count("shared-caller-objects:systematic-histories")
+	}
+
 	histories := c.Budget(1200, 6000)
 	maxOps := c.Budget(200, 600)
 	if os.Getenv("VERIF_SEARCH") == "1" {
